@@ -5,6 +5,7 @@
   The specifications are Python's own list operations from `Verif.Py` (`pySliceStep`, `pyIndex`, `pySlice`).
 -/
 import Verif.Lemmas.C07
+import Verif.Lemmas.C07D
 
 namespace Verif.C07
 open Verif.Py
@@ -691,5 +692,217 @@ theorem align_then_rotate_order_matters :
     congr 1 <;> norm_num
   · simp only [Tether.frameMatrixSwapped, Tether.rotMatrix, Aff.mul, Aff.apply, rotAff, tCos, tSin, tCx, tCy, hl, two_real]
     congr 1 <;> norm_num
+
+
+/-! # Deepening round D -/
+
+/-! ## `to_kymo`: what the kymograph shows (pixels, line time, exposure, start) -/
+
+/-- `ImageStack.to_kymo(half_window = w)`, one colour channel, pages of `H × W` pixels, any reachable stack: when the
+    code returns a kymograph, the tether is horizontal (`y1 = y2` = the tether row), the window `y1 - w … y1 + w` lies
+    inside the visible image, the kymograph has one position per pixel of the part `max(x1, 0) … min(x2, width - 1)` of
+    the tether row that lies inside the image, and the value at position `x` of line `t` is the sum, over the rows
+    `y1 - w … y1 + w` of the image the stack currently shows for its `t`-th frame (`roi.apply (raw p)`), of the pixel in
+    column `max(x1, 0) + x` — "for each frame, the pixel values along the tether row reduced over the requested half
+    window".  Specification side: Python slicing of the VISIBLE image and a plain sum; model side: the window
+    arithmetic of `_kymo_from_image_stack`, `Roi.crop` on the raw page, `np.sum(axis=1)` as a fold over rows, swapped axes. -/
+theorem kymo_pixels_refine (s : Stack) (pages : List Page) (raw : Int → List (List Int)) (H W : Nat)
+    (hraw : ∀ p, (raw p).length = H ∧ ∀ row ∈ raw p, row.length = W) (hr : s.roi.Within H W)
+    (x1 y1 x2 y2 w : Int) (k : Kymo)
+    (hk : s.toKymo pages raw (some (x1, y1, x2, y2)) w = some (.ok k)) :
+    y1 = y2 ∧ 0 ≤ w ∧ 0 ≤ y1 - w ∧ y1 + w + 1 ≤ s.roi.height ∧ max x1 0 < min (x2 + 1) s.roi.width ∧
+    k.image.length = (min (x2 + 1) s.roi.width - max x1 0).toNat ∧
+    ∀ (x t : Nat) (p : Int), (x : Int) < min (x2 + 1) s.roi.width - max x1 0 → s.frames[t]? = some p →
+      (k.image[x]?.bind (·[t]?)) = some (((pySlice (s.roi.apply (raw p)) (y1 - w) (y1 + w + 1)).map
+          fun row => row.getD ((max x1 0).toNat + x) 0).sum) := by
+  obtain ⟨r, r', _, _, hy, hw, hlo, hhi, hc, himg⟩ := toKymo_inv s pages raw x1 y1 x2 y2 w k hk
+  subst hy
+  have hW := hr
+  obtain ⟨hx0, hx01, hx1, hy0, hy01, hy1'⟩ := hr
+  have hinv := roi_crop_some_inv s.roi r' (max x1 0) (max (x2 + 1) 0) (y1 - w) (y1 + w + 1)
+    (by omega) (by omega) hlo (by omega) hc
+  obtain ⟨e1, e2, e3, e4, hlt, _⟩ := hinv
+  have hwd : r'.width = min (x2 + 1) s.roi.width - max x1 0 := by
+    unfold Roi.width at *; omega
+  have hpos : max x1 0 < min (x2 + 1) s.roi.width := by
+    unfold Roi.width at *; omega
+  refine ⟨rfl, hw, hlo, hhi, hpos, ?_, ?_⟩
+  · rw [himg, swapAxes_length, hwd]
+  · intro x t p hx hp
+    have hxn : x < r'.width.toNat := by omega
+    rw [himg, swapAxes_getElem? _ _ _ hxn]
+    simp only [Option.bind_some, List.getElem?_map, hp, Option.map_some]
+    congr 1
+    -- the window of this frame as a slice of the visible image
+    have href := roi_crop_refines (raw p) H W (hraw p).1 (hraw p).2 s.roi hW
+      (some (max x1 0)) (some (max (x2 + 1) 0)) (some (y1 - w)) (some (y1 + w + 1))
+    rw [hc] at href
+    rw [href.1]
+    obtain ⟨hvl, hvw⟩ := roi_apply_shape (raw p) H W (hraw p).1 (hraw p).2 s.roi hW
+    generalize s.roi.apply (raw p) = vis at *
+    unfold pySlice2
+    simp only [pySliceOpt_some]
+    have hb : max (x2 + 1) 0 = x2 + 1 := by unfold Roi.width at *; omega
+    rw [hb]
+    have hrow : ∀ row ∈ pySlice vis (y1 - w) (y1 + w + 1),
+        (pySlice row (max x1 0) (x2 + 1)).getD x 0 = row.getD ((max x1 0).toNat + x) 0 := by
+      intro row _
+      exact getD_pySlice row _ _ x (by omega) (by omega) (by omega)
+    by_cases hw0 : w > 0
+    · unfold kymoLine
+      rw [if_pos hw0]
+      rw [sumRows_getD _ (min (x2 + 1) s.roi.width - max x1 0).toNat x ?_ (by omega)]
+      · rw [List.map_map]
+        congr 1
+        apply List.map_congr_left
+        intro row hrow'
+        exact hrow row hrow'
+      · intro q hq
+        rw [List.mem_map] at hq
+        obtain ⟨row, hrow', rfl⟩ := hq
+        have := hvw row (mem_of_mem_pySlice hrow')
+        rw [pySlice_nonneg' _ _ _ (by omega) (by omega)]
+        simp only [List.length_drop, List.length_take]
+        unfold Roi.width at *; omega
+    · have hw1 : w = 0 := by omega
+      subst hw1
+      have hlen : ((pySlice vis (y1 - 0) (y1 + 0 + 1)).length : Int) = 1 := by
+        rw [length_pySlice_within _ _ _ (by omega) (by omega) (by unfold Roi.height at *; omega)]; omega
+      obtain ⟨row0, h0⟩ := List.length_eq_one_iff.mp (by omega : (pySlice vis (y1 - 0) (y1 + 0 + 1)).length = 1)
+      unfold kymoLine
+      rw [if_neg (by omega), h0]
+      simp only [List.map_cons, List.map_nil, List.headD_cons, List.sum_cons, List.sum_nil, Int.add_zero]
+      exact hrow row0 (by rw [h0]; simp)
+
+
+/-- Non-vacuity: stack `[::2]` of 4 pages of 4 × 5 pixels cropped to columns 1–4, tether row 1 from x = 0 to 2, half
+    window 1: three positions, two lines; position 0 of line 0 is `7 + 12 + 17` (rows 0–2 of raw column 1 of page 0). -/
+example : (Stack.toKymo ⟨0, 4, 2, ⟨1, 5, 0, 4⟩⟩ [⟨10, 20, 14⟩, ⟨20, 30, 24⟩, ⟨30, 40, 34⟩, ⟨40, 50, 44⟩] (encPage 4 5 1 0)
+    (some (0, 1, 2, 1)) 1) = some (.ok ⟨20, 4, 10, [[21, 141], [24, 144], [27, 147]]⟩) := by decide
+example : Roi.Within ⟨1, 5, 0, 4⟩ 4 5 := by unfold Roi.Within; decide
+
+/-- `to_kymo` cuts a window exactly when the tether is horizontal, the half window is not negative, the rows
+    `y - w … y + w` exist and at least one pixel of the tether row lies inside the image; every refusal is the
+    documented `ValueError`. -/
+theorem kymo_stack_ok_iff (s : Stack) (H W : Nat) (hr : s.roi.Within H W) (x1 y1 x2 y2 w : Int) :
+    ((∃ ks, s.kymoStack x1 y1 x2 y2 w = .ok ks) ↔
+      (y1 = y2 ∧ 0 ≤ w ∧ 0 ≤ y1 - w ∧ y2 + w + 1 ≤ s.roi.height ∧ max x1 0 < min (x2 + 1) s.roi.width)) ∧
+    ∀ e, s.kymoStack x1 y1 x2 y2 w = .error e → e = .value := by
+  obtain ⟨hx0, hx01, hx1, hy0, hy01, hy1'⟩ := hr
+  unfold Stack.kymoStack kymoWindow
+  by_cases hy : y1 ≠ y2
+  · rw [if_pos hy]
+    refine ⟨⟨fun ⟨_, h⟩ => (by cases h), fun h => absurd h.1 hy⟩, fun e h => by cases h; rfl⟩
+  · rw [if_neg hy]
+    by_cases hw : w < 0
+    · rw [if_pos hw]
+      refine ⟨⟨fun ⟨_, h⟩ => (by cases h), fun h => by omega⟩, fun e h => by cases h; rfl⟩
+    · rw [if_neg hw]
+      simp only
+      by_cases hwin : y1 - w < 0 ∨ y2 + w + 1 > s.roi.height
+      · rw [if_pos hwin]
+        refine ⟨⟨fun ⟨_, h⟩ => (by cases h), fun h => by omega⟩, fun e h => by cases h; rfl⟩
+      · rw [if_neg hwin]
+        simp only [bind, Except.bind]
+        unfold Stack.cropPixels Roi.crop Roi.make
+        simp only [cropBound_some_nonneg _ _ _ (by omega : 0 ≤ max x1 0),
+          cropBound_some_nonneg _ _ _ (by omega : 0 ≤ max (x2 + 1) 0),
+          cropBound_some_nonneg _ _ _ (by omega : 0 ≤ y1 - w),
+          cropBound_some_nonneg _ _ _ (by omega : 0 ≤ y2 + w + 1)]
+        unfold Roi.width Roi.height at *
+        rw [if_neg (by omega)]
+        by_cases hbad : min (max (x2 + 1) 0) (s.roi.xMax - s.roi.xMin) + s.roi.xMin ≤
+              min (max x1 0) (s.roi.xMax - s.roi.xMin) + s.roi.xMin ∨
+            min (y2 + w + 1) (s.roi.yMax - s.roi.yMin) + s.roi.yMin ≤
+              min (y1 - w) (s.roi.yMax - s.roi.yMin) + s.roi.yMin
+        · rw [if_pos hbad]
+          refine ⟨⟨fun ⟨_, h⟩ => (by cases h), fun h => by omega⟩, fun e h => by cases h; rfl⟩
+        · rw [if_neg hbad]
+          refine ⟨⟨fun _ => by omega, fun _ => ⟨_, rfl⟩⟩, fun e h => by cases h⟩
+
+example : Stack.kymoStack ⟨0, 3, 1, ⟨4, 10, 0, 6⟩⟩ (-3) 2 4 2 1 = .ok ⟨0, 3, 1, ⟨4, 9, 1, 4⟩⟩ := by decide
+
+/-- whenever the right tether end is not left of the image the pinned code computes the same window -/
+theorem kymoWindow_eq_pinned (x1 y1 x2 y2 w h : Int) (hx : 0 ≤ x2 + 1) :
+    kymoWindow x1 y1 x2 y2 w h = kymoWindowPinned x1 y1 x2 y2 w h := by
+  unfold kymoWindow kymoWindowPinned
+  rw [Int.max_eq_left hx]
+
+theorem F20b_witness :
+    (Stack.kymoStackPinned ⟨0, 3, 1, ⟨6, 10, 0, 4⟩⟩ (-5) 2 (-3) 2 0).toOption.map Stack.roi = some ⟨6, 8, 2, 3⟩ ∧
+    Stack.kymoStack ⟨0, 3, 1, ⟨6, 10, 0, 4⟩⟩ (-5) 2 (-3) 2 0 = .error .value := by decide
+
+/-- The timing head of `to_kymo`: it goes on exactly when there are at least two frames, all consecutive frame starts
+    are `line time` apart and all frames are exposed equally long; line time, exposure and start are those of the frames. -/
+theorem kymo_times_spec (r : List (Int × Int)) (lt ex st : Int) :
+    kymoTimes r = .ok (lt, ex, st) ↔
+      2 ≤ r.length ∧ (∀ i (h : i + 1 < r.length), r[i + 1].1 - r[i].1 = lt) ∧ (∀ x ∈ r, x.2 - x.1 = ex) ∧
+        r.head?.map (·.1) = some st := by
+  match r with
+  | [] => simp [kymoTimes]
+  | [a] => simp [kymoTimes]
+  | a :: b :: rest =>
+    have hall1 := all_zip_drop (b.1 - a.1) (a :: b :: rest)
+    unfold kymoTimes
+    simp only
+    by_cases h1 : ((a :: b :: rest).zip ((a :: b :: rest).drop 1)).all (fun (x, y) => y.1 - x.1 == b.1 - a.1) = true
+    · rw [h1]
+      simp only [Bool.not_true, Bool.false_eq_true, if_false]
+      by_cases h2 : (a :: b :: rest).all (fun r => r.2 - r.1 == a.2 - a.1) = true
+      · rw [h2]
+        simp only [Bool.not_true, Bool.false_eq_true, if_false, Except.ok.injEq, Prod.mk.injEq]
+        rw [List.all_eq_true] at h2
+        have h1' := hall1.mp h1
+        constructor
+        · rintro ⟨rfl, rfl, rfl⟩
+          refine ⟨by simp, h1', ?_, rfl⟩
+          intro x hx; simpa using h2 x hx
+        · rintro ⟨_, hd, he, hs⟩
+          refine ⟨?_, ?_, ?_⟩
+          · have := hd 0 (by simp); simpa using this
+          · exact he a (by simp)
+          · simpa using hs
+      · simp only [h2, Bool.not_false, if_true]
+        constructor
+        · intro h; cases h
+        · rintro ⟨_, _, he, _⟩
+          exfalso; apply h2
+          rw [List.all_eq_true]
+          intro x hx
+          rw [he x hx, he a (by simp)]; simp
+    · simp only [h1, Bool.not_false, if_true]
+      constructor
+      · intro h; cases h
+      · rintro ⟨_, hd, _, _⟩
+        exfalso; apply h1
+        rw [hall1]
+        intro i hi
+        rw [hd i hi]
+        have := hd 0 (by simp); simpa using this.symm
+
+/-- fewer than two frames: the (undocumented) `IndexError`; never another error than these two -/
+theorem kymo_times_errors (r : List (Int × Int)) :
+    (kymoTimes r = .error .index ↔ r.length < 2) ∧ ∀ e, kymoTimes r = .error e → e = .index ∨ e = .value := by
+  match r with
+  | [] => simp [kymoTimes]
+  | [a] => simp [kymoTimes]
+  | a :: b :: rest =>
+    unfold kymoTimes
+    simp only
+    constructor
+    · constructor
+      · intro h; split at h
+        · cases h
+        · split at h <;> cases h
+      · intro h; simp at h
+    · intro e h
+      split at h
+      · cases h; right; rfl
+      · split at h
+        · cases h; right; rfl
+        · cases h
+
+example : kymoTimes [(10, 14), (30, 34), (50, 54)] = .ok (20, 4, 10) := by decide
+example : kymoTimes [(10, 14), (30, 34), (51, 55)] = .error .value := by decide
 
 end Verif.C07
